@@ -44,6 +44,7 @@ type Profile struct {
 	Families         bool // render variants (Async subsets / Sets / orders) of the same DAG
 	RiskyShapes      int  // per mille of programs that may use shapes known not to compile on the pinned tree
 	AdversarialNames bool // engine B: names that collide with the allocator's
+	CtxOdds          int  // >0: x/12 chance that a provider takes context.Context (default: 0..2 drawn per program)
 }
 
 type genState struct {
@@ -279,7 +280,7 @@ func genOnce(r *Rand, pkg string, prof Profile) *Spec {
 	if r.Chance(1, 3) {
 		nProv = 1 + r.Intn(4) // many small programs
 	}
-	shapes := []string{"random", "chain", "fan", "diamond", "syncroot", "joinsink", "layered", "layered", "layered", "tree", "tree"}
+	shapes := []string{"random", "chain", "fan", "diamond", "syncroot", "joinsink", "layered", "layered", "layered", "tree", "tree", "ladder"}
 	shape := shapes[r.Intn(len(shapes))]
 	g.sp.Shape = shape
 	recency := 0
@@ -305,11 +306,62 @@ func genOnce(r *Rand, pkg string, prof Profile) *Spec {
 		fallP = 2
 	}
 	ctxP := r.Intn(3) // x/12 chance that a provider takes context.Context
+	if prof.CtxOdds > 0 && r.Chance(1, 2) {
+		ctxP = prof.CtxOdds
+	}
+	g.sp.MultiVarSets = r.Chance(1, 3)
 	treeRoot := -1
 	if shape == "tree" {
 		budget := 3 + r.Intn(8)
 		treeRoot = g.tree(&budget, 0, fallP)
 		nProv = 0
+	}
+	if shape == "ladder" {
+		// two or three parallel chains whose steps also consume the previous step of a neighbour chain:
+		// pools that consume each other's values without any cycle between providers
+		chains := 2 + r.Intn(2)
+		length := 2 + r.Intn(3)
+		prev := make([]int, chains)
+		var root int = -1
+		if r.Chance(1, 2) {
+			rp := Provider{Name: fmt.Sprintf("P%d", len(g.sp.Providers)), Form: "func", Out: []int{g.newType(KPtr)}}
+			g.sp.Providers = append(g.sp.Providers, rp)
+			root = rp.Out[0]
+			g.avail = append(g.avail, root)
+		}
+		for j := 0; j < length; j++ {
+			cur := make([]int, chains)
+			for c := 0; c < chains; c++ {
+				p := Provider{Name: fmt.Sprintf("P%d", len(g.sp.Providers)), Form: "func"}
+				if j == 0 {
+					if root >= 0 && r.Chance(2, 3) {
+						p.In = []int{root}
+					}
+				} else {
+					p.In = []int{prev[c]}
+					if r.Chance(2, 3) {
+						p.In = append(p.In, prev[(c+1)%chains])
+					}
+				}
+				p.Out = []int{g.newType(g.freshValueKind())}
+				p.Fallible = r.Intn(6) < fallP
+				g.sp.Providers = append(g.sp.Providers, p)
+				g.avail = append(g.avail, p.Out...)
+				cur[c] = p.Out[0]
+			}
+			prev = cur
+		}
+		// side branches off the root that stay independent of the ladder (they keep goroutine chains alive
+		// whatever happens to the ladder's pools)
+		for x := 0; x < 1+r.Intn(2); x++ {
+			p := Provider{Name: fmt.Sprintf("P%d", len(g.sp.Providers)), Form: "func", Out: []int{g.newType(g.freshValueKind())}}
+			if root >= 0 {
+				p.In = []int{root}
+			}
+			g.sp.Providers = append(g.sp.Providers, p)
+			g.avail = append(g.avail, p.Out...)
+		}
+		nProv = r.Intn(2)
 	}
 	for i := 0; i < nProv; i++ {
 		k := r.Intn(4)
@@ -334,6 +386,9 @@ func genOnce(r *Rand, pkg string, prof Profile) *Spec {
 			pos := r.Intn(len(p.In) + 1)
 			p.In = append(p.In[:pos], append([]int{g.ctx()}, p.In[pos:]...)...)
 			p.CtxAware = r.Chance(2, 3)
+			if prof.CtxOdds > 0 {
+				p.CtxAware = r.Chance(1, 2)
+			}
 		}
 		nOut := 1
 		switch r.Intn(10) {
@@ -477,6 +532,9 @@ func genOnce(r *Rand, pkg string, prof Profile) *Spec {
 			outs[i], outs[j] = outs[j], outs[i]
 		}
 		k := 2 + r.Intn(3)
+		if shape == "ladder" || (shape == "layered" && r.Chance(1, 3)) {
+			k = 3 + r.Intn(6) // a wide sink: consumes most of what the graph produces
+		}
 		if k > len(outs) {
 			k = len(outs)
 		}
@@ -711,7 +769,7 @@ func (g *genState) variant(base []Use, k int) []Use {
 	uses := make([]Use, len(base))
 	copy(uses, base)
 	mode := r.Intn(9)
-	if (g.sp.Shape == "layered" || g.sp.Shape == "tree") && r.Chance(1, 2) {
+	if (g.sp.Shape == "layered" || g.sp.Shape == "tree" || g.sp.Shape == "ladder") && r.Chance(1, 2) {
 		mode = 5 + r.Intn(4) // mostly asynchronous service graphs, often with synchronous roots / sinks
 	}
 	if g.prof.WantAsync && mode == 0 {
